@@ -319,6 +319,11 @@ UNSUPPORTED = {
 
 DOT_FAMILY = ("dot", "norm", "normsq", "dist", "relative_error", "rmse", "r_squared", "eq", "m_dot", "m_norm")
 
+def _factor_orth(t, mu):
+    t = t.clone(); t.factor_orthogonalize(mu)
+    return t
+
+
 def _setitem(t, key, value):
     t = t.clone(); t[key] = value
     return t
@@ -355,6 +360,9 @@ EITHER = {
     "repeat1": (lambda t, u: t.repeat(*([1] * t.dim())), lambda a, b: a),
     "repeat2": (lambda t, u: t.repeat(*([2] + [1] * (t.dim() - 1))), lambda a, b: np.tile(a, [1, 2] + [1] * (a.ndim - 2))),
     "squeeze": (lambda t, u: tn.squeeze(t), lambda a, b: np.squeeze(a)),
+    # the single-factor step called directly (the sweeps convert CP cores first and never reach its CP branch)
+    "factor_orthogonalize0": (lambda t, u: _factor_orth(t, 0), lambda a, b: a),
+    "factor_orthogonalize_last": (lambda t, u: _factor_orth(t, t.dim() - 1), lambda a, b: a),
     # negative positions count over all axes, the batch axis included
     "unbind_neg": (lambda t, u: tn.unbind(t, -1)[0], lambda a, b: a[..., 0]),
     "unbind_neg_last": (lambda t, u: tn.unbind(t, -1)[-1], lambda a, b: a[..., -1]),
